@@ -10,10 +10,22 @@ CTX = None
 MODELS = ["convection", "burgers", "euler1d", "shallowwater"]
 
 
-def setup(ctx):
+def install(ctx):
     global CTX
     CTX = ctx
     solvelog.install()
+
+
+def traffic_flush(ctx):
+    """repository traffic: judge every solve/restart the test just made, then drop the logs"""
+    logs = list(solvelog.LOGS)
+    del solvelog.LOGS[:]
+    for log in logs:
+        check_log(ctx, log, log.solver_class, fresh_solver=None)
+
+
+def setup(ctx):
+    install(ctx)
     solvelog.BUDGET["steps"] = 3000
     ctx.on_begin.append(solvelog.reset)
     ctx.require("step-advance", "snapshot-times", "snapshot-origin", "nit", "stop", "caller-field", "snapshot-it", "start-time-request",
@@ -73,6 +85,11 @@ def check_log(ctx, log, iname, fresh_solver=None, expect_restart=False):
     ctx.true("caller-field", same, "solve/caller-field-modified", None, cls="caller-field")
     if not traj_finite:
         ctx.skip("solve:nonfinite-trajectory")
+        return
+    if any(it["dt"] is not None and np.any(np.isnan(it["dt"])) for it in its):
+        # a trajectory state left the admissible set (e.g. negative pressure): calc_timestep returns NaN in some cell and
+        # python's min() over such an array is order dependent -- the property only speaks about finite trajectories
+        ctx.skip("solve:nan-cell-time-step(inadmissible-trajectory-state)")
         return
     # (2) returned snapshots = requested times in [t_start, t_stop], in order
     expected = [t for t in log.tsave if tstart <= t <= tfinal]
